@@ -6,7 +6,9 @@ From Coq Require Import List Bool.
 Import ListNotations.
 
 Inductive src := SDataset | SSample | SSlow.
-Inductive tr := TNone | TJs | TPanic.
+Inductive tr := TNone | TJs | TJsPar | TPanic | TEmpty.
+(* TJsPar: identity JS transform with Parallelism 10 on pages of 15 entities (the partition arithmetic of C10);
+   TEmpty: a filtering JS transform that returns no entity at all (the sink is then called with an empty batch) *)
 (* TPanic: a transform stage that panics in the goroutine of the run (the driver injects the panic into the
    pipeline.transform.batch timing call, which both pipelines make right after the transform of a page;
    on the pinned tree the rounding defect of C10 is a real instance: makeslice: len out of range) *)
@@ -24,10 +26,11 @@ Record cfg := {
 Record jvariant := {
   fix_endctx : bool;   (* F11a: wrappedTransform.EndStoreContext forwards to w.t instead of itself *)
   fix_verify : bool;   (* F11b: verify checks the error handlers of onchange triggers too *)
-  fix_panic : bool     (* F11c: a panic inside the run is turned into a recorded failure *)
+  fix_panic : bool;    (* F11c: a panic inside the run is turned into a recorded failure *)
+  fix_chunk : bool     (* F11d = F10b seen from here: the chunk arithmetic of the parallel transform does not panic *)
 }.
-Definition jcurrent := {| fix_endctx := false; fix_verify := false; fix_panic := false |}.
-Definition jfixed := {| fix_endctx := true; fix_verify := true; fix_panic := true |}.
+Definition jcurrent := {| fix_endctx := false; fix_verify := false; fix_panic := false; fix_chunk := false |}.
+Definition jfixed := {| fix_endctx := true; fix_verify := true; fix_panic := true; fix_chunk := true |}.
 
 (** Scheduler.verify: an onchange trigger with a monitored dataset returns before verifyErrorHandlers *)
 Definition handlers_verified (v : jvariant) (c : cfg) : bool :=
@@ -56,14 +59,23 @@ Definition sync (v : jvariant) (c : cfg) : sres * bool (* wrappedSink.lastError 
     | _, _ =>
       if c_kill c then (SInterrupt, false) else
       (* transform stage of the first page *)
-      match c_tr c with
-      | TPanic => (SPanic, false)
-      | _ =>
+      if (match c_tr c, c_jt c with
+          | TPanic, _ => true
+          | TJsPar, JIncr => negb (fix_chunk v)          (* makeslice: len out of range *)
+          | _, _ => false
+          end)
+      then (SPanic, false)
+      else
         (* sink stage *)
         let '(stop, lasterr) :=
             match c_snk c with
-            | KMissing => if wrapped then (if handler_nil v c then (Some SPanic, false) else (None, true))
-                          else (Some SErr, false)
+            | KMissing =>
+              (* every batch is rejected; with the wrapper each entity goes to the handler (nil handler: nil
+                 dereference) - an empty batch has no entity to hand over, the error is only remembered *)
+              if wrapped
+              then (if handler_nil v c && negb (match c_tr c with TEmpty => true | _ => false end)
+                    then (Some SPanic, false) else (None, true))
+              else (Some SErr, false)
             | _ => (None, false)
             end in
         match stop with
@@ -75,7 +87,6 @@ Definition sync (v : jvariant) (c : cfg) : sres * bool (* wrappedSink.lastError 
           | _ => if wrapped && negb (fix_endctx v) then (SDiverge, lasterr) else (SOk, lasterr)
           end
         end
-      end
     end.
 
 Inductive result := RSuccess | RFailure | RKill.
@@ -91,20 +102,12 @@ Record out := {
     A panic skips the store, runs the defers and propagates: jobrunner's recover re-panics
     (log.Logger.Panic) for cron jobs, event jobs run in a bare goroutine - the process dies either way.
     A runaway recursion is fatal at once. *)
-Definition run_job (v : jvariant) (c : cfg) : out :=
-  if negb (accepted v c) then {| o_accepted := false; o_alive := true; o_result := None; o_ticket := true |}
-  else
+Definition run_once (v : jvariant) (c : cfg) : out :=
     match sync v c with
     | (SOk, lasterr) =>
       {| o_accepted := true; o_alive := true;
          o_result := Some (if has_log v c && lasterr then RFailure else RSuccess); o_ticket := true |}
-    | (SErr, _) =>
-      (* handleJobError schedules the re-run; with unverified handlers RetryDelay is a few nanoseconds, the
-         re-run starts at once, instrumentErrorHandling calls reset() on the nil handler: the process dies
-         with the first run's failure already stored *)
-      if handler_nil v c && (match c_h c with HLogRerun => true | _ => false end)
-      then {| o_accepted := true; o_alive := false; o_result := Some RFailure; o_ticket := true |}
-      else {| o_accepted := true; o_alive := true; o_result := Some RFailure; o_ticket := true |}
+    | (SErr, _) => {| o_accepted := true; o_alive := true; o_result := Some RFailure; o_ticket := true |}
     | (SInterrupt, _) => {| o_accepted := true; o_alive := true; o_result := Some RKill; o_ticket := true |}
     | (SPanic, _) =>
       if fix_panic v
@@ -113,9 +116,24 @@ Definition run_job (v : jvariant) (c : cfg) : out :=
     | (SDiverge, _) => {| o_accepted := true; o_alive := false; o_result := None; o_ticket := false |}
     end.
 
+Definition run_job (v : jvariant) (c : cfg) : out :=
+  if negb (accepted v c) then {| o_accepted := false; o_alive := true; o_result := None; o_ticket := true |}
+  else
+    let o := run_once v c in
+    (* a recorded failure makes handleJobError schedule the re-run; with unverified handlers RetryDelay is a few
+       nanoseconds, the re-run starts at once, instrumentErrorHandling calls reset() on the nil handler: the
+       process dies with the first run's failure already stored *)
+    match o_result o with
+    | Some RFailure =>
+      if o_alive o && handler_nil v c && (match c_h c with HLogRerun => true | _ => false end)
+      then {| o_accepted := true; o_alive := false; o_result := Some RFailure; o_ticket := true |}
+      else o
+    | _ => o
+    end.
+
 (** the lattice *)
 Definition all_src := [SDataset; SSample; SSlow].
-Definition all_tr := [TNone; TJs; TPanic].
+Definition all_tr := [TNone; TJs; TJsPar; TPanic; TEmpty].
 Definition all_snk := [KDevNull; KDataset; KMissing].
 Definition all_trig := [GCron; GOnChange].
 Definition all_jt := [JIncr; JFull].
@@ -142,11 +160,13 @@ Fixpoint wrapped_end_ctx (fixed : bool) (fuel : nat) : option unit :=
 
 (** exactly the accepted configurations on which a run of the pinned tree kills the hub process *)
 Definition dies_current (c : cfg) : bool :=
+  let tempty := match c_tr c with TEmpty => true | _ => false end in
+  let nilrerun := match c_trig c, c_h c with GOnChange, HLogRerun => true | _, _ => false end in
   accepted jcurrent c
   && if (match c_jt c, c_snk c with JFull, KMissing => true | _, _ => false end)
-     then (match c_trig c, c_h c with GOnChange, HLogRerun => true | _, _ => false end)
+     then nilrerun
      else negb (c_kill c)
-          && ((match c_tr c with TPanic => true | _ => false end)
+          && ((match c_tr c, c_jt c with TPanic, _ => true | TJsPar, JIncr => true | _, _ => false end)
               || (has_log jcurrent c
-                  && ((match c_snk c, c_trig c with KMissing, GOnChange => true | _, _ => false end)
+                  && ((match c_snk c, c_trig c with KMissing, GOnChange => negb tempty || nilrerun | _, _ => false end)
                       || (match c_tr c with TNone => false | _ => true end)))).
